@@ -600,6 +600,11 @@ func unmapOrderedCollectionPageProperties(mm map[string][]byte, c *OrderedCollec
 			return err
 		}
 	}
+	if raw, ok := mm["startIndex"]; ok {
+		if err = gobDecodeUint(&c.StartIndex, raw); err != nil {
+			return err
+		}
+	}
 	return err
 }
 
